@@ -25,6 +25,8 @@ DATA = {
     "time": [1000.010, 1000.011, 1000.012, 1000.013, 1000.014, 1000.015,
              1000.016, 1000.017],
     "bright_avg": [5.0, 15.0, 25.0, 35.0, 45.0, 55.0, 65.0, 75.0],
+    # integer-typed data with range limits that are not integers
+    "frame": [100, 105, 110, 115, 116, 120, 125, 130],
 }
 N = 8
 
@@ -36,6 +38,8 @@ RANGES = {
     "time": [(1000.0115, 1000.0145),
              (1000.013, float(np.nextafter(1000.013, 2000.0))),
              (1000.012, 1000.012)],
+    "frame": [(110.5, 125.2), (115.2, 115.8), (104.9, 105.1),
+              (115.9, 116.0)],
 }
 
 # polygons on (aspect, bright_avg); query points are never on a boundary
@@ -319,7 +323,9 @@ def drivers(ctx):
                 ("nan-and-finite", FilterDriver(
                     feats=("area_um", "bright_avg"), polys=()), 4, 1),
                 ("narrow-windows", FilterDriver(
-                    feats=("time",), polys=()), 3, 1)]
+                    feats=("time",), polys=()), 3, 1),
+                ("integer-data", FilterDriver(
+                    feats=("frame",), polys=()), 3, 1)]
     return [("full", FilterDriver(), 4, 2),
             ("small-deep", FilterDriver(feats=("deform",), polys=(0,)),
              6, 3),
@@ -328,7 +334,9 @@ def drivers(ctx):
             ("nan-and-finite", FilterDriver(
                 feats=("area_um", "bright_avg", "deform"), polys=()), 4, 2),
             ("narrow-windows", FilterDriver(
-                feats=("time", "deform"), polys=()), 4, 2)]
+                feats=("time", "deform"), polys=()), 4, 2),
+            ("integer-data", FilterDriver(
+                feats=("frame", "deform"), polys=()), 4, 2)]
 
 
 def run(ctx):
